@@ -438,7 +438,11 @@ impl RenderTableRow {
             };
             // Skip any zero-width columns
             if col_width > 0 {
-                cell.col_width = Some(col_width + cell.colspan - 1);
+                cell.col_width = Some(if vertical {
+                    col_width
+                } else {
+                    col_width + cell.colspan - 1
+                });
                 let style = cell.style.clone();
                 result.push(RenderNode::new_styled(
                     RenderNodeInfo::TableCell(cell),
